@@ -134,6 +134,31 @@ def scenarios(rng, quick):
         skip = rng.choice([[], [], [6, 7], [rng.randrange(1, 8)], sorted(rng.sample(range(1, 8), 2))])
         args = ["%04d-%02d-%02d" % (y, m, d), incs, fmtd(l)] + sum((["-s", WDN[w]] for w in skip), [])
         sc.append(dict(kind="mon", args=args, first=[y, m, d], inc=[im, idd], last=l, skip=skip, cfl=False, wd0=5, dec="date"))
+    # the same with date-time bounds: the time of day rides along unchanged, LAST is compared as a date-time -- the model is given
+    # the day on which the run must end (LAST's day, or the day before/after when FIRST's time of day lies beyond LAST's)
+    for i in range(n // 3 + 40):
+        y, m = rng.randrange(1700, 3900), rng.randrange(1, 13)
+        d = rng.choice([1, 15, 28, 29, 30, 31, 31, 30, 29])
+        try:
+            datetime.date(y, m, d)
+        except ValueError:
+            d = 28
+        im = rng.choice([1, 1, 2, 3, 6, 12, 24, -1, -3, -12, 11])
+        steps = rng.randrange(0, 14)
+        t = y * 12 + m - 1 + im * steps
+        ly, lm = t // 12, t % 12 + 1
+        if not (1602 <= ly <= 4090):
+            continue
+        # LAST on the day the last element is clamped to, as often as not
+        ldd = (datetime.date(ly + (lm == 12), lm % 12 + 1, 1) - datetime.timedelta(days=1)).day
+        ld = min(d, ldd) if rng.random() < 0.6 else rng.choice([1, 15, 28])
+        fs, ls = rng.choice([0, 36000, 43200, 86399]), rng.choice([0, 36000, 43200, 86399])
+        l = ldn(ly, lm, ld)
+        leff = l if (fs <= ls if im > 0 else fs >= ls) else (l - 1 if im > 0 else l + 1)
+        unit = "%dmo" % im if im % 12 or rng.random() < 0.5 else "%dy" % (im // 12)
+        skip = rng.choice([[], [], [6, 7], [rng.randrange(1, 8)]])
+        args = ["%04d-%02d-%02dT%s" % (y, m, d, hms(fs)), unit, "%sT%s" % (fmtd(l), hms(ls))] + sum((["-s", WDN[w]] for w in skip), [])
+        sc.append(dict(kind="mon", args=args, first=[y, m, d], inc=[im, 0], last=leff, skip=skip, cfl=False, wd0=5, dec="dtmon", tod=fs))
     # a clamped element (31st -> 30th / end of February) that falls on a skipped weekday, incl. as the last element
     for y in (1999, 2010, 2011, 2012, 2024, 2100, 3000):
         for fm, n in ((1, 3), (1, 1), (3, 1), (5, 4), (8, 3), (10, 1)):
@@ -199,6 +224,10 @@ def decode(sc, line):
     try:
         if sc["dec"] == "date":
             return parsen(sc.get("nota", "ymd"), line)
+        if sc["dec"] == "dtmon":
+            dpart, tpart = line.split("T")
+            h, mi, s_ = map(int, tpart.split(":"))
+            return parsen("ymd", dpart) if h * 3600 + mi * 60 + s_ == sc["tod"] else -999999998
         if sc["dec"] == "time":
             h, m, s = map(int, line.split(":"))
             return h * 3600 + m * 60 + s
